@@ -11,7 +11,7 @@ OUT = list(' -|+abc*>') + ['一', 'é']
 
 class C15(Prop):
     id = 'C15'
-    stages = ('S1',)
+    stages = ('S1', 'S6')
     needs = ('cells', 'svg')
     rule = 'rows of drawing content with 0..3 quoted segments at arbitrary columns (segment content over drawing, markup, multi-byte and double-width characters, no quote or backslash) on multi-row diagrams; each item also renders the input with every quoted region overwritten by spaces of its column width; non-trivial when there is at least one segment'
     level_text = ('Theorems C15_quoted_segment (for every line pre "body" post the text is lifted out verbatim at the opening quote and the drawn row is pre ++ spaces ++ post), C15_rest_as_if_blanked (cells equal those of the blanked line), '
@@ -60,7 +60,9 @@ class C15(Prop):
     def item_from_json(self, j):
         it = item_from_json(None, j); return it
     def oracle(self, it):
-        rm, _ = root_of(it.runs['main']); rb, _ = root_of(it.runs['blank'])
+        rm, _ = root_of(it.runs['main']); rb, _e2 = root_of(it.runs['blank'])
+        if rm is None and rb is not None and it.meta.get('quoted'):
+            return ['the document of the input with quoted text is not well-formed (%s) while the one of the blanked input is: the quoted text is not shown verbatim' % str(_)[:80]]
         if rm is None or rb is None: return []
         out = []
         if dict(rm.attrs) != dict(rb.attrs): out.append('the canvas differs from the one of the blanked input: %s vs %s' % (dict(rm.attrs), dict(rb.attrs)))
